@@ -228,7 +228,6 @@ func TestEnum_Lengths(t *testing.T) {
 	}
 }
 
-
 func genForeign(t *rapid.T, prefix string) string {
 	kind := rapid.IntRange(0, 5).Draw(t, "fkind")
 	switch kind {
@@ -294,6 +293,13 @@ func TestProp_RoundTrip(t *testing.T) {
 			at = append(at, rapid.IntRange(0, chunks).Draw(t, "at"))
 		}
 		sortInts(at)
+		// state left behind by an earlier, REJECTED list must not leak into this round trip
+		if rapid.IntRange(0, 2).Draw(t, "rejectedListFirst") == 0 {
+			good, _ := nodetls.BreakIntoNextProtos(prefix, content(r, rapid.IntRange(1, 3*per).Draw(t, "poisonLen"), 0))
+			poison := append(append([]string(nil), good...), prefix+rapid.SampledFrom([]string{"zz", "", "12", "noheader"}).Draw(t, "headerless"))
+			vkit.Guard(func() { _, _ = nodetls.CombineFromNextProtos(prefix, poison) })
+			vkit.Rec(prop).Count("round_trips_preceded_by_a_rejected_list", 1)
+		}
 		roundTrip(t, prefix, value, alphabet, foreign, at)
 	})
 }
